@@ -105,13 +105,11 @@ def step (st : St) (j : Json) : St × Json :=
         pure (reply st out)
     | "update_defaults" =>
         let new ← dictOfJson (← field j "new")
-        match updateDefaults st.env st.s new with
-        | .ok s' => pure (reply { st with s := s' } (okJson Json.null))
-        | .error e => pure (reply st (errJson (errName e)))
+        let (s', e) := updateDefaultsP st.env st.s new
+        pure (reply { st with s := s' } (match e with | .none => okJson Json.null | some e => errJson (errName e)))
     | "refresh" =>
-        match refresh st.env st.s with
-        | .ok s' => pure (reply { st with s := s' } (okJson Json.null))
-        | .error e => pure (reply st (errJson (errName e)))
+        let (s', e) := refreshP st.env st.s
+        pure (reply { st with s := s' } (match e with | .none => okJson Json.null | some e => errJson (errName e)))
     | "validate_device" =>
         let v ← treeOfJson (← field j "v")
         pure (reply st (match validateDevice st.env v with
